@@ -28,7 +28,7 @@ import (
 )
 
 type mv struct {
-	k  byte // 'u' undefined, 'i' int, 's' string, 'a' array, 'm' map
+	k  byte // 'u' undefined, 'i' int, 's' string, 'a' array, 'm' map, 'f' the builtin function len
 	i  int64
 	s  string
 	el []*mv
@@ -36,6 +36,19 @@ type mv struct {
 }
 
 var mUndef = &mv{k: 'u'}
+
+// mBuiltinLen: what the identifier `len` denotes when the host has not added a
+// variable of that name (docs/builtins.md).
+var mBuiltinLen = &mv{k: 'f'}
+
+var builtinLenObj = func() tengo.Object {
+	for _, f := range tengo.GetAllBuiltinFunctions() {
+		if f.Name == "len" {
+			return f
+		}
+	}
+	return nil
+}()
 
 func mInt(n int64) *mv { return &mv{k: 'i', i: n} }
 
@@ -90,6 +103,8 @@ func (v *mv) typeName() string {
 		return "array"
 	case 'm':
 		return "map"
+	case 'f':
+		return "builtin-function:len"
 	}
 	return "?"
 }
@@ -100,6 +115,8 @@ func (v *mv) toObj() tengo.Object {
 	switch v.k {
 	case 'u':
 		return tengo.UndefinedValue
+	case 'f':
+		return builtinLenObj
 	case 'i':
 		return &tengo.Int{Value: v.i}
 	case 's':
@@ -126,6 +143,8 @@ func (v *mv) goRender() string {
 	switch v.k {
 	case 'u':
 		return "nil"
+	case 'f':
+		return "object:func/builtin:len" // no Go counterpart: the object itself
 	case 'i':
 		return "int64:" + strconv.FormatInt(v.i, 10)
 	case 's':
@@ -170,6 +189,8 @@ func (v *mv) canon(sb *strings.Builder, ids map[*mv]int) {
 	switch v.k {
 	case 'u':
 		sb.WriteString("u")
+	case 'f':
+		sb.WriteString("f:len")
 	case 'i':
 		sb.WriteString("i" + strconv.FormatInt(v.i, 10))
 	case 's':
@@ -235,6 +256,9 @@ var scripts = []scriptDef{
 	{"a = [a]", []string{"a"}, nil},
 	{"out := undefined", nil, []string{"out"}},
 	{"a[0] = 7", []string{"a"}, nil}, // in-place write: makes container sharing observable
+	// reads a name that is also a builtin function: the host's variable if one
+	// was added before Compile (it shadows the builtin), else the builtin
+	{"out := len", nil, []string{"out"}},
 }
 
 func scriptIndex(src string) int {
@@ -324,6 +348,12 @@ func (m *model) exec(o *mobj) bool {
 			return false
 		}
 		a.el[0] = mInt(7)
+	case 5: // out := len
+		if _, declared := o.g["len"]; declared {
+			o.g["out"] = gval(o, "len")
+		} else {
+			o.g["out"] = mBuiltinLen
+		}
 	}
 	return true
 }
